@@ -1770,8 +1770,6 @@ pub fn collect_orbits(ds: &SimpleDSet)
 
                     steps += 1;
                     proof {
-                        assert(seen@ =~= seen_b.update(ei as int, true).update(e as int, true));
-                        assert(orbit_index@[i as int]@ =~= oi_b.update(ei as int, orbit_nr).update(e as int, orbit_nr));
                     }
 
                     if e == d {
@@ -4733,7 +4731,6 @@ pub open spec fn foldable<S: DSet>(ds: &S, d: usize) -> bool {
                                 if this.degrees_match(di, ei) {
                                     queue.push_back((di, ei));
                                     proof {
-                                        assert(queue@ =~= qi.push((di, ei)));
                                         lemma_queue_push(this, repf(&p), qi, h, i as int, d, e);
                                         lemma_ci_push(this, r0, d0, e0, h, qi, d, e, i as int);
                                         assert(pairs_ok(this, queue@)) by { assert forall|k: int| 0 <= k < queue@.len() implies rng(this, (#[trigger] queue@[k]).0) && rng(this, queue@[k].1) && deg_eq(this, queue@[k].0, queue@[k].1) by { if k < qi.len() { assert(queue@[k] == qi[k]); } } }
